@@ -5,9 +5,12 @@ Encodings (DESIGN.md 3.1):
   data     {"t": "int"|"bool"|"str", "n": value (length for strings)}
   value    {"d": data, "c": context, "h": is a (data, context) pair}
   spec     {"k": "str", "p": path} {"k": "cls", "c": name} {"k": "fn", "f": name}
+           {"k": "fn", "f": "raise"|"num", "e": exception class}   (a callable raising that class)
            {"k": "list"|"tuple", "xs": [...]}
            {"k": "Sel"|"Not", "x": spec, "roe": bool} {"k": "And"|"Or", "xs": [...], "roe": bool}
            {"k": "SC", "p": path, "q": predicate name, "roe": bool}
+           {"k": "SC", "p": path, "q": "raise"|"needx", "e": exception class, "roe": bool}
+  result   "T" | "F" | name of the class of the exception that reached the caller
 """
 import json
 
@@ -50,6 +53,60 @@ def funcs():
         "isnone": lambda v: lf.get_data(v) is None,
         "eq0": lambda v: lf.get_data(v) == 0,
     }
+
+
+def exc_classes():
+    """The exception classes of SelectorsSem.tla ExcKinds (lena's own are those of the tree under test)."""
+    import lena.core as lc
+
+    class SubLenaKeyError(lc.LenaKeyError):
+        pass
+    d = {"Boom": Boom, "TypeError": TypeError, "ValueError": ValueError, "KeyError": KeyError,
+         "LookupError": LookupError, "AttributeError": AttributeError, "SubLenaKeyError": SubLenaKeyError}
+    for n in ("LenaKeyError", "LenaTypeError", "LenaValueError", "LenaAttributeError", "LenaException"):
+        d[n] = getattr(lc, n)
+    return d
+
+
+_EXC = {}
+
+
+def exc_class(name):
+    if not _EXC:
+        _EXC.update(exc_classes())
+    return _EXC[name]
+
+
+def raising_fn(f, e):
+    """The callables FnR(e) / FnN(e) of Selectors.tla."""
+    import lena.flow as lf
+    cls = exc_class(e)
+    if f == "raise":
+        def fn(v):
+            raise cls("raised by a selector's callable")
+    else:
+        def fn(v):
+            d = lf.get_data(v)
+            if not isinstance(d, (int, bool)):
+                raise cls("data is not a number")
+            return d > 0
+    fn.__name__ = "%s_%s" % (f, e)
+    return fn
+
+
+def raising_pred(q, e):
+    """The predicates of SCE(p, q, e, r) of Selectors.tla."""
+    cls = exc_class(e)
+    if q == "raise":
+        def pred(sub):
+            raise cls("raised by a predicate")
+    else:
+        def pred(sub):
+            if not isinstance(sub, dict) or "x" not in sub:
+                raise cls("x")
+            return sub["x"] == 1
+    pred.__name__ = "%s_%s" % (q, e)
+    return pred
 
 
 CLASSES = {"int": int, "str": str, "bool": bool, "object": object, "tuple": tuple, "ucls": CallableClass}
@@ -193,6 +250,8 @@ def build(ast, form=0, explicit_roe=True, F=None):
     if k == "cls":
         return CLASSES[ast["c"]]
     if k == "fn":
+        if "e" in ast:
+            return raising_fn(ast["f"], ast["e"])
         return F[ast["f"]]
     if k == "list":
         return [rec(x) for x in ast["xs"]]
@@ -208,7 +267,8 @@ def build(ast, form=0, explicit_roe=True, F=None):
         return lf.Or([rec(x) for x in ast["xs"]], **kw(ast))
     if k == "SC":
         forms = key_forms(ast["p"])
-        return lf.SelectContext(forms[form % len(forms)], PREDS[ast["q"]], **kw(ast))
+        pred = raising_pred(ast["q"], ast["e"]) if "e" in ast else PREDS[ast["q"]]
+        return lf.SelectContext(forms[form % len(forms)], pred, **kw(ast))
     raise ValueError("unknown node %r" % (ast,))
 
 
@@ -223,11 +283,16 @@ def has_sc(ast):
 
 
 def evaluate(obj, val):
+    """"T" / "F" / the name of the class of the exception that reached the caller."""
     try:
         r = obj(val)
     except Exception as exc:   # noqa
-        return "E:" + type(exc).__name__
+        return type(exc).__name__
     return "T" if r else "F"
+
+
+def is_exc(res):
+    return res not in ("T", "F", "U")
 
 
 def render(ast):
@@ -238,7 +303,7 @@ def render(ast):
     if k == "cls":
         return ast["c"]
     if k == "fn":
-        return "<%s>" % ast["f"]
+        return "<%s %s>" % (ast["f"], ast["e"]) if "e" in ast else "<%s>" % ast["f"]
     if k == "list":
         return "[%s]" % ",".join(render(x) for x in ast["xs"])
     if k == "tuple":
@@ -247,7 +312,8 @@ def render(ast):
         return "%s(%s%s)" % ("Selector" if k == "Sel" else "Not", render(ast["x"]), roe())
     if k in ("And", "Or"):
         return "%s(%s%s)" % (k, ",".join(render(x) for x in ast["xs"]), roe())
-    return "SelectContext(%s,<%s>%s)" % (".".join(ast["p"]), ast["q"], roe())
+    q = "%s %s" % (ast["q"], ast["e"]) if "e" in ast else ast["q"]
+    return "SelectContext(%s,<%s>%s)" % (".".join(ast["p"]), q, roe())
 
 
 def size(ast):
@@ -258,6 +324,10 @@ def size(ast):
 LEAF_PATHS = [["a"], ["b"], ["a", "b"], ["a", "b", "x"], ["a", "b", "5"], ["b", "1"], ["c"], ["a", "c", "d"],
               ["a", "None"], ["b", "False"], ["a", "b", "None"], ["b", "0"], ["a", "[]"]]
 SC_PATHS = [[], ["a"], ["a", "b"], ["b"], ["a", "b", "x"], ["a", "c"]]
+
+
+EXC_KINDS = ["Boom", "TypeError", "ValueError", "KeyError", "LookupError", "AttributeError", "LenaKeyError",
+             "LenaKeyError", "LenaTypeError", "LenaValueError", "LenaAttributeError", "LenaException", "SubLenaKeyError"]
 
 
 def no_raise(ast):
@@ -276,7 +346,9 @@ def random_leaf(rnd):
         return {"k": "str", "p": rnd.choice(LEAF_PATHS)}
     if t < 0.6:
         return {"k": "cls", "c": rnd.choice(sorted(CLASSES))}
-    return {"k": "fn", "f": rnd.choice(["yes", "no", "boom", "pos", "len", "hasctx", "isnone", "eq0", "objpos"])}
+    if t < 0.9:
+        return {"k": "fn", "f": rnd.choice(["yes", "no", "boom", "pos", "len", "hasctx", "isnone", "eq0", "objpos"])}
+    return {"k": "fn", "f": rnd.choice(["raise", "num"]), "e": rnd.choice(EXC_KINDS)}
 
 
 def random_spec(rnd, depth, want_obj=False):
@@ -290,6 +362,9 @@ def random_spec(rnd, depth, want_obj=False):
     if k == "leaf":
         return random_leaf(rnd)
     if k == "SC":
+        if rnd.random() < 0.3:
+            return {"k": "SC", "p": rnd.choice(SC_PATHS), "q": rnd.choice(["raise", "needx", "needx"]),
+                    "e": rnd.choice(EXC_KINDS), "roe": roe}
         return {"k": "SC", "p": rnd.choice(SC_PATHS), "q": rnd.choice(sorted(PREDS)), "roe": roe}
     if k in ("Sel", "Not"):
         return {"k": k, "x": random_spec(rnd, depth - 1), "roe": roe}
